@@ -4,7 +4,8 @@ Reads (through Python `ast`, never by importing the package) the literals of
   opendsm/eemeter/models/hourly_caltrack/segmentation.py   _segment_weights_* and the dispatcher of segment_time_series
   opendsm/eemeter/models/hourly_caltrack/model.py          _PredictionSegmentInfo
   opendsm/eemeter/models/hourly_caltrack/wrapper.py        HourlyModel.segment_type, month_dict, model_month_dict
-  opendsm/eemeter/common/features.py                       fit_temperature_bins(default_bins=[...])
+  opendsm/eemeter/common/features.py                       fit_temperature_bins(default_bins=[...], min_temperature_count=...),
+                                                           estimate_hour_of_week_occupancy(threshold=...)
 under vlib.repo_root() and writes coq/Generated/CalTrackTables.v.
 
 Fail-closed: any shape that is not recognised raises TranslatorError (the check reports a broken tie).
@@ -286,6 +287,28 @@ def default_bins(tree):
     return out
 
 
+def _default_of(tree, fname, arg):
+    fn = _func(tree, fname)
+    names = [a.arg for a in fn.args.args]
+    _need(arg in names, "%s has no %s argument" % (fname, arg))
+    k = names.index(arg) - (len(names) - len(fn.args.defaults))
+    _need(k >= 0, "%s: %s has no default" % (fname, arg))
+    try:
+        return ast.literal_eval(fn.args.defaults[k])
+    except ValueError:
+        raise TranslatorError("%s: default of %s is not a literal" % (fname, arg))
+
+
+def fit_defaults(tree):
+    """fit_temperature_bins(min_temperature_count=...) and estimate_hour_of_week_occupancy(threshold=...)"""
+    mc = _default_of(tree, "fit_temperature_bins", "min_temperature_count")
+    _need(isinstance(mc, int) and not isinstance(mc, bool) and 0 <= mc <= 5000, "min_temperature_count default %r is not a small integer" % (mc,))
+    th = _default_of(tree, "estimate_hour_of_week_occupancy", "threshold")
+    _need(isinstance(th, (int, float)) and not isinstance(th, bool) and th == th and abs(th) < 1e6,
+          "occupancy threshold default %r is not a finite number" % (th,))
+    return {"min_temperature_count": mc, "threshold": th}
+
+
 def wrapper_month_keys(tree):
     """wrapper.py: month_dict (abbreviation -> month number) and the expression that picks, from a fitted segment's name,
     the abbreviation of the month its uncertainty figures are filed under:
@@ -337,6 +360,7 @@ def extract():
         "prediction_info": prediction_info(_parse(MODEL_PY)),
         "wrapper_segment_type": wrapper_segment_type(_parse(WRAP_PY)),
         "default_bins": default_bins(_parse(FEAT_PY)),
+        "fit_defaults": fit_defaults(_parse(FEAT_PY)),
         "wrapper_month_keys": wrapper_month_keys(_parse(WRAP_PY)),
     }
 
@@ -359,7 +383,7 @@ def render(ex):
          "     %s (_segment_weights_*, segment_time_series)" % SEG_PY,
          "     %s (_PredictionSegmentInfo)" % MODEL_PY,
          "     %s (HourlyModel.segment_type, month_dict, model_month_dict)" % WRAP_PY,
-         "     %s (fit_temperature_bins default_bins)" % FEAT_PY,
+         "     %s (fit_temperature_bins default_bins / min_temperature_count, occupancy threshold)" % FEAT_PY,
          "   Do not edit. A segment is (name, explicit (month, weight) entries, weight of every other month);",
          "   segments are listed in DataFrame column order. *)",
          "From Coq Require Import ZArith QArith List String Ascii PrimFloat.",
@@ -393,6 +417,12 @@ def render(ex):
     L.append("(* fit_temperature_bins: the candidate bin endpoints (the same numbers as rationals and as binary64) *)")
     L.append("Definition default_bins : list Q := %s." % vlib.coq_list([vlib.qlit(Fraction(v)) for v in ex["default_bins"]]))
     L.append("Definition default_bins_f : list float := %s." % vlib.coq_list([vlib.fhex(float(v)) for v in ex["default_bins"]]))
+    L.append("")
+    fd = ex["fit_defaults"]
+    L.append("(* fit_temperature_bins(min_temperature_count=...), estimate_hour_of_week_occupancy(threshold=...): the defaults the")
+    L.append("   wrapper runs with (the threshold is the exact value of the binary64 literal) *)")
+    L.append("Definition default_min_temperature_count : nat := %d." % fd["min_temperature_count"])
+    L.append("Definition default_occupancy_threshold : Q := %s." % vlib.qlit(Fraction(fd["threshold"])))
     L.append("")
     wk = ex["wrapper_month_keys"]
     L.append("(* HourlyModel.fit, uncertainty figures: month_dict, and k.replace(A, B).split(SEP)[I] *)")
